@@ -76,7 +76,10 @@ CHECKS = {
         level="exploration", engine="E1+E7", ref="DESIGN.md section 4 C14",
         text="for every block of a prefix tree over 13 symbols (all kinds of splitting, terminal and store "
              "instructions) and of filler blocks of length 18..27 with stores/splits at every subset of <=3 positions, "
-             "under the three policies: join of the reported sub-blocks = optimizable sequence, get_subblocks agrees, "
+             "plus blocks of length 40 (thorough: 49) with three or four stores whose distances cross the partition "
+             "threshold in every combination, "
+             "under the three policies: join of the reported sub-blocks = optimizable sequence, sub-blocks meet at an "
+             "instruction that can be a splitting instruction, get_subblocks agrees, "
              "every specification key/recorded instruction list/stack sizes match its sub-block, rebuild with {} and "
              "all-None is the identity on all fields, and replacing sub-block k changes exactly segment k; plus every "
              "splitting instruction met at every stack height 0..17 (thorough ..39 and 98..102)",
